@@ -5,6 +5,7 @@ import (
 	"go/ast"
 	"go/token"
 	"go/types"
+	"strings"
 
 	"golang.org/x/tools/go/packages"
 )
@@ -244,4 +245,75 @@ func recvNamed(sig *types.Signature) string {
 		return nt.Obj().Name()
 	}
 	return ""
+}
+
+// R08j: a function that hands bytes from a buffer of its own to a caller-supplied slice has handed over what `copy`
+// says it copied — the destination may be shorter than the source (fill() passes the tail of the read buffer, which is
+// a byte or three short when the lexer kept unread bytes). Dropping len(source) bytes from the buffer while returning
+// copy(dst, source) loses the difference. So wherever a function of the module copies into a []byte parameter, no
+// reslice in that function drops `len(<the copied expression>)` bytes: the amount dropped is the copy's result.
+func checkCopiedAmountConsumed(p *Prog, r *Result, rule string) int {
+	n := 0
+	for _, rel := range []string{"syntax", "interp", "expand", "fileutil", "cmd/shfmt", "pattern"} {
+		pkg := p.Pkg(rel)
+		if pkg == nil {
+			continue
+		}
+		info := pkg.TypesInfo
+		for _, fd := range p.AllFuncDecls(rel) {
+			if fd.Body == nil || fd.Type.Params == nil || strings.HasSuffix(p.Position(fd.Pos()), "_test.go") {
+				continue
+			}
+			params := map[types.Object]bool{}
+			for _, fl := range fd.Type.Params.List {
+				if sl, ok := info.TypeOf(fl.Type).Underlying().(*types.Slice); ok {
+					if bt, ok := sl.Elem().Underlying().(*types.Basic); ok && bt.Kind() == types.Uint8 {
+						for _, nm := range fl.Names {
+							params[info.ObjectOf(nm)] = true
+						}
+					}
+				}
+			}
+			if len(params) == 0 {
+				continue
+			}
+			k := 0
+			inspectNoLit(fd.Body, func(m ast.Node) bool {
+				c, ok := m.(*ast.CallExpr)
+				if !ok || !isBuiltinCall(info, c, "copy") || len(c.Args) != 2 {
+					return true
+				}
+				id, ok := ast.Unparen(c.Args[0]).(*ast.Ident)
+				if !ok || !params[info.ObjectOf(id)] {
+					return true
+				}
+				src := exprString(c.Args[1])
+				k++
+				n++
+				key := fmt.Sprintf("%s#copy %d into %s: what is dropped from the source is what was copied", funcKey(rel, fd), k, id.Name)
+				bad := token.NoPos
+				inspectNoLit(fd.Body, func(q ast.Node) bool {
+					as, ok := q.(*ast.AssignStmt)
+					if !ok || len(as.Lhs) != 1 || len(as.Rhs) != 1 {
+						return true
+					}
+					se, ok := ast.Unparen(as.Rhs[0]).(*ast.SliceExpr)
+					if !ok || se.Low == nil || exprString(se.X) != exprString(as.Lhs[0]) {
+						return true
+					}
+					ast.Inspect(se.Low, func(z ast.Node) bool {
+						if lc, ok := z.(*ast.CallExpr); ok && isBuiltinCall(info, lc, "len") && len(lc.Args) == 1 && exprString(lc.Args[0]) == src {
+							bad = as.Pos()
+						}
+						return true
+					})
+					return true
+				})
+				r.Check(bad == token.NoPos, rule, key, c.Pos(), "no reslice in the function drops len("+src+") bytes",
+					fmt.Sprintf("the function copies %s into the caller's slice and drops len(%s) bytes from its own buffer (at %s): when the destination is shorter than the source — fill() hands over the tail of the read buffer, which is up to three bytes short when unread bytes were kept — the bytes that did not fit are lost", src, src, p.Position(bad)))
+				return true
+			})
+		}
+	}
+	return n
 }
